@@ -19,6 +19,8 @@ structure Sess where
   zit   : Option (Nat × Nat × ArraySized.Iter) := none
   sit   : Option (Nat × Cursor Elem) := none
   szit  : Option (Nat × Nat × ZipCursor Elem) := none
+  sparse : Bool := false      -- obs=sparse session: content is printed by `observe` only
+  force  : Bool := false      -- the current op is `observe`
   zsame : Nat × Bool := (0, false)      -- ideal cursor of a zip iterator with the same array on both sides
 
 def getSlot {β : Type} (l : List (Option β)) (k : Nat) : Option β := (l[k]?).getD none
@@ -94,7 +96,9 @@ def phys (s : Sess) : String :=
 def inv (s : Sess) : Bool := s.model.all fun o => match o with | some a => decide a.Inv | none => true
 
 def lines (hdS hdM : String) (s : Sess) : Sess × String × String :=
-  (s, s!"S {hdS}{obsS s}", s!"M {hdM}{obsM s} | {phys s} | {fmtMem s.mem} | {fmtFlags (inv s) s.mem}")
+  let show_ := !s.sparse || s.force
+  (s, s!"S {hdS}{if show_ then obsS s else ""}",
+   s!"M {hdM}{if show_ then obsM s else ""} | {phys s} | {fmtMem s.mem} | {fmtFlags (inv s) s.mem}")
 
 def hdr (st : Option Stat) (out : Option String := none) (out2 : Option String := none)
     (cb : Option String := none) : String :=
@@ -142,7 +146,9 @@ def noSession (s : Sess) (m : Mem) : Sess × String × String :=
   ({ s with mem := m }, "S st=- nosession", s!"M st=- nosession | - | {fmtMem m} | {fmtFlags true m}")
 
 /-- returns the new session, the spec line and the model line -/
-def step (s : Sess) (c : Cmd) : Sess × String × String :=
+def step (s0 : Sess) (c : Cmd) : Sess × String × String :=
+  let s : Sess := { s0 with force := c.op == "observe",
+                            sparse := s0.sparse || ((c.op == "new" || c.op == "new_default") && c.str "obs" == some "sparse") }
   let m := s.mem.begin c.sched
   let k := slotOf c "o" 0
   let refusal : Option Stat := if c.fired > 0 then some .errAlloc else none
@@ -171,6 +177,7 @@ def step (s : Sess) (c : Cmd) : Sess × String × String :=
   if !anyObj s then noSession s m else
   let s := { s with mem := m }
   match c.op with
+  | "observe" => simple s "st=-"
   | "destroy" =>
     let m := s.model.foldl (fun m o => match o with | some a => a.destroy m | none => m) m
     simple { s with model := [none, none, none, none], spec := [none, none, none, none], mem := m,
